@@ -188,6 +188,31 @@ theorem completes (c : Crypto) (o : OutCfg) (i : InCfg) (frA frB : Nat) (H : Hon
   rw [session_ok c o i frA frB H hprov0 hia hkey hselR hchk]
   exact ⟨_, _, rfl, rfl⟩
 
+/-- **fragmentation_irrelevant.** The only place where the transport's fragmentation enters the
+handshake is the size of each side's first read.  For any two admissible pairs of first-read sizes
+the whole session — both results with their cipher states, and every byte put on the wire in
+either direction — is the same. -/
+theorem fragmentation_irrelevant (c : Crypto) (o : OutCfg) (i : InCfg) (frA frB frA' frB' : Nat)
+    (H : Honest c o i frA frB) (H' : Honest c o i frA' frB')
+    (hl : LooksUpByHash c i) (hinj : ∀ a b, c.hashSKey a = c.hashSKey b → a = b)
+    (hselR : i.select o.provide < 4294967296) :
+    session c o i frA frB = session c o i frA' frB' := by
+  by_cases hpre : o.provide = 0 ∨ o.ia.length > 65535
+  · rw [session_precheck c o i frA frB hpre, session_precheck c o i frA' frB' hpre]
+  · have hprov0 : o.provide ≠ 0 := fun h => hpre (Or.inl h)
+    have hia : o.ia.length ≤ 65535 := by
+      rcases Nat.lt_or_ge 65535 o.ia.length with h | h
+      · exact absurd (Or.inr h) hpre
+      · exact h
+    rcases getSKey_cases c o i hl hinj with hk | hk
+    · rw [session_unknown_key c o i frA frB H hprov0 hia hk, session_unknown_key c o i frA' frB' H' hprov0 hia hk]
+    · cases hchk : selectedCheck (i.select o.provide) o.provide with
+      | error e =>
+        rw [session_reject c o i frA frB H hprov0 hia hk e hchk, session_reject c o i frA' frB' H' hprov0 hia hk e hchk]
+      | ok u =>
+        cases u
+        rw [session_ok c o i frA frB H hprov0 hia hk hselR hchk, session_ok c o i frA' frB' H' hprov0 hia hk hselR hchk]
+
 /-- **stream_id.** If both sides complete: the receiver holds the initial payload unchanged; each
 side's write cipher state equals the other side's read cipher state — same key-stream, same
 position (1024 discarded bytes + VC + fields + pads [+ initial payload]), same RC4/plaintext
@@ -395,5 +420,25 @@ theorem disable_and_force_is_plaintext (c : Crypto) (g : DialCfg) (e : DialEnv) 
   simp only [Bool.false_eq_true, if_false, Prod.mk.injEq] at h
   have t := dialTail_ok h.2.2
   rw [t.1]; rfl
+
+/-- By-catch (not part of C12, which only speaks about the forced settings): after a failed MSE
+handshake `Dial` keeps the `selected` value the failed handshake decoded and reports it as the
+`cipher` of the plaintext retry connection.  Witness: the remote selects RC4, announces 5 bytes of
+PadD and hangs up; the retry succeeds in plaintext and is labelled RC4 (`Stats` then shows
+`EncryptedStream` for an unencrypted peer).  The policy suite exhibits the same on the real code
+(`c1=trunc`). -/
+theorem retry_label_stale :
+    let c : Crypto := ⟨fun x => List.replicate 96 (x.headD 0), fun _ _ => [1], fun _ => List.replicate 20 9,
+                       fun _ => List.replicate 20 5, fun _ => List.replicate 20 4, fun _ _ _ _ => 0⟩
+    let ih := List.replicate 20 1
+    let g : DialCfg := ⟨true, false, List.replicate 8 0, ih, List.replicate 20 2⟩
+    let e : DialEnv := { dial1 := true, stopped := false, dial2 := true, fr := 96,
+                         inp1 := List.replicate 96 7 ++ zeros 8 ++ be32 2 ++ be16 5,
+                         inp2 := btHandshake (List.replicate 8 0) ih (List.replicate 20 3),
+                         x := [3], padA := [], padCLen := 0 }
+    (match (dial c g e).2.2 with
+     | .ok r => r.cipher == 2 && r.retried && !r.conn.encrypted
+     | _ => false) = true := by
+  decide
 
 end Rain.Props.C12
